@@ -153,6 +153,28 @@ impl Prop for C13 {
         }
         let mut vs = case.vocab.clone();
         vs.canonical = true;
+        // tokens that straddle the prompt / grammar boundary (what token healing exists for): the last bytes of the
+        // prompt split in two tokens, and those bytes glued to the first byte(s) of a string the grammar produces
+        {
+            let text: String = case.prompt.iter().map(|i| PROMPT_POOL[*i as usize]).collect();
+            let pb = text.as_bytes();
+            let seeds: Vec<u16> = case.walk.iter().map(|st| st.pick).collect();
+            let gs = crate::walk::sample_bytes(&case.g, &seeds, 8);
+            if pb.len() >= 4 && !gs.is_empty() && matches!(vs.base, crate::vocab::Base::Byte) {
+                let tail = &pb[pb.len() - 4..];
+                vs.extra.push(crate::util::B(tail[..2].to_vec()));
+                vs.extra.push(crate::util::B(tail[2..].to_vec()));
+                for k in 1..=gs.len().min(2) {
+                    let mut t = tail.to_vec();
+                    t.extend_from_slice(&gs[..k]);
+                    vs.extra.push(crate::util::B(t));
+                    let mut t2 = tail[2..].to_vec();
+                    t2.extend_from_slice(&gs[..k]);
+                    vs.extra.push(crate::util::B(t2));
+                }
+                ctx.class("vocabulary_with_prompt_straddling_tokens");
+            }
+        }
         let vocab: Vocab = match vs.build() {
             Ok(v) => v,
             Err(_) => return Ok(()),
@@ -210,6 +232,73 @@ impl Prop for C13 {
                         if res.len() < ptoks.len() || res != ptoks {
                             ctx.class("prompt_changed_by_healing_or_forcing");
                             ctx.nontrivial(Fnv::new().u64(gh).str(&text).finish());
+                        }
+                        // generation after the (possibly healed) prompt: ff tokens must commit, every commit keeps
+                        // "returned prompt + generated tokens" = "original prompt + a prefix the grammar allows"
+                        let prompt_bytes = vocab.trie().decode_raw(&ptoks);
+                        let mut gen: Vec<u32> = vec![];
+                        for st in case.walk.iter().take(8) {
+                            if tp.stop_reason() != llguidance::api::StopReason::NotStopped {
+                                break;
+                            }
+                            let step = std::panic::catch_unwind(std::panic::AssertUnwindSafe(|| -> Result<Option<Vec<u32>>, String> {
+                                // the forced-token query is optional for a caller: sometimes go straight to the mask (which
+                                // then sees whatever the previous forced-token query left behind)
+                                let ff = if st.multi { tp.compute_ff_tokens() } else { vec![] };
+                                let batch = if !ff.is_empty() {
+                                    ff
+                                } else {
+                                    let mask = match tp.compute_mask() {
+                                        Ok(m) => m,
+                                        Err(_) => return Ok(None),
+                                    };
+                                    let ids: Vec<u32> = mask_ids(&mask, n).into_iter().filter(|t| vocab.is_regular(*t)).collect();
+                                    match crate::walk::choose(&ids, &vocab, st, false) {
+                                        Some(t) => vec![t],
+                                        None => return Ok(None),
+                                    }
+                                };
+                                for t in &batch {
+                                    match tp.consume_token(*t) {
+                                        Ok(0) => {}
+                                        Ok(bt) => return Err(format!("consume_token({}) asked to backtrack {} tokens without the backtrack capability", t, bt)),
+                                        Err(e) => return Err(format!("consume_token({}) of an ff / mask-allowed token failed: {}", t, crate::engine::short_err(&e.to_string()))),
+                                    }
+                                }
+                                let _ = tp.check_stop();
+                                Ok(Some(batch))
+                            }));
+                            ctx.eval(1);
+                            let batch = match step {
+                                Err(_) => return ctx.fail("C13/generation-after-prompt-panicked", || format!("grammar {} prompt {:?} generated {:?}: panic", gtxt, text, gen)),
+                                Ok(Err(e)) => {
+                                    if is_limit_error(&e) {
+                                        break;
+                                    }
+                                    return ctx.fail("C13/allowed-token-rejected-after-prompt", || format!("grammar {} prompt {:?} (returned {:?}) generated {:?}: {}", gtxt, text, res, gen, e));
+                                }
+                                Ok(Ok(None)) => break,
+                                Ok(Ok(Some(b))) => b,
+                            };
+                            gen.extend(batch);
+                            let mut full = vocab.trie().decode_raw(&res);
+                            full.extend(vocab.trie().decode_raw(&gen));
+                            let ok = if full.len() <= prompt_bytes.len() {
+                                prompt_bytes.starts_with(&full)
+                            } else if !full.starts_with(&prompt_bytes) {
+                                false
+                            } else {
+                                let tail: Vec<u32> = full[prompt_bytes.len()..].iter().map(|b| *b as u32).collect();
+                                match twin.clone().validate_tokens(&tail) {
+                                    Ok(k) => k == tail.len(),
+                                    Err(_) => true,
+                                }
+                            };
+                            if !ok {
+                                return ctx.fail("C13/text-after-prompt-not-allowed-by-grammar", || {
+                                    format!("grammar {} prompt {:?}: returned prompt {:?} + generated tokens {:?} spell {:?}, which is not the original prompt followed by text the grammar allows", gtxt, text, res, gen, esc(&full))
+                                });
+                            }
                         }
                     }
                 }
